@@ -9,10 +9,36 @@ EXTENDS Lender, Json, IOUtils, TLC
 
 Rec == ndJsonDeserialize(IOEnv.TRACE)
 
-VARIABLES l, skip
-tvars == <<items, pos, pass, open, l, skip>>
+VARIABLES l, skip,
+          corrupt, \* the episode reads a damaged compressed stream
+          ref      \* damaged streams: <<>> or <<[res, end]>>, what the first complete pass yielded
+tvars == <<items, pos, pass, open, l, skip, corrupt, ref>>
 
-TraceInit == LInit /\ l = 1 /\ skip = FALSE
+TraceInit == LInit /\ l = 1 /\ skip = FALSE /\ corrupt = FALSE /\ ref = <<>>
+
+(***************************************************************************)
+(* Damaged compressed streams (header field `corrupt`).  What a decoder    *)
+(* yields before it notices the damage is not specified, so the first      *)
+(* complete pass (a `drain` right after `open`) is the reference: it may   *)
+(* end in an error, and every later pass must replay exactly that --       *)
+(* the same lines, then the same end -- however much of it is consumed.    *)
+(* Scripts for these inputs use open, drain, rewind and nexts(c) only.     *)
+(***************************************************************************)
+IsPrefixOf(a, b) == Len(a) <= Len(b) /\ a = SubSeq(b, 1, Len(a))
+CorruptWhy(ev) ==
+    IF ev.op = "open" THEN (IF ev.out = "ret" /\ ev.r = "ok" THEN "ok" ELSE "open")
+    ELSE IF ev.out # "ret" THEN "outcome"
+    ELSE IF ev.op = "rewind" THEN (IF ev.r = "ok" THEN "ok" ELSE "error")
+    ELSE IF ev.op = "drain" THEN
+         (IF ref = <<>> THEN (IF ev.end \in {"none", "err"} THEN "ok" ELSE "end")
+          ELSE IF ev.res # ref[1].res THEN "items" ELSE IF ev.end # ref[1].end THEN "end" ELSE "ok")
+    ELSE IF ev.op = "nexts" THEN
+         (IF ref = <<>> THEN "bad-script"
+          ELSE IF ~IsPrefixOf(ev.res, ref[1].res) THEN "items"
+          ELSE IF Len(ev.res) = ev.c THEN (IF ev.end = "more" THEN "ok" ELSE "end")
+          ELSE IF Len(ev.res) # Len(ref[1].res) THEN "items"
+          ELSE IF ev.end # ref[1].end THEN "end" ELSE "ok")
+    ELSE "bad-script"
 
 Has(r, f) == f \in DOMAIN r
 
@@ -32,22 +58,29 @@ Step ==
     /\ l' = l + 1
     /\ LET ev == Rec[l] IN
        IF ev.op = "BEGIN"
-       THEN /\ items' = ItemsOf(ev)
+       THEN /\ items' = (IF "corrupt" \in DOMAIN ev THEN <<>> ELSE ItemsOf(ev))
             /\ pos' = 0 /\ pass' = <<>> /\ open' = FALSE
-            /\ skip' = FALSE
-       ELSE IF skip THEN UNCHANGED <<items, pos, pass, open, skip>>
+            /\ skip' = FALSE /\ corrupt' = ("corrupt" \in DOMAIN ev) /\ ref' = <<>>
+       ELSE IF skip THEN UNCHANGED <<items, pos, pass, open, skip, corrupt, ref>>
+       ELSE IF corrupt
+       THEN LET w == CorruptWhy(ev) IN
+            IF w = "ok"
+            THEN /\ ref' = (IF ev.op = "drain" /\ ref = <<>> THEN <<[res |-> ev.res, end |-> ev.end]>> ELSE ref)
+                 /\ UNCHANGED <<items, pos, pass, open, skip, corrupt>>
+            ELSE /\ PrintT(<<"MISMATCH", ev.ep, ev.seq, ev.op, w>>)
+                 /\ skip' = TRUE /\ UNCHANGED <<items, pos, pass, open, corrupt, ref>>
        ELSE LET x == Eff(ev)
                 w == Why(ev, x)
             IN  IF w = "ok"
-                THEN Install(x.st) /\ skip' = FALSE /\ UNCHANGED items
+                THEN Install(x.st) /\ skip' = FALSE /\ UNCHANGED <<items, corrupt, ref>>
                 ELSE /\ PrintT(<<"MISMATCH", ev.ep, ev.seq, ev.op, w>>)
                      /\ skip' = TRUE
-                     /\ UNCHANGED <<items, pos, pass, open>>
+                     /\ UNCHANGED <<items, pos, pass, open, corrupt, ref>>
 
 Finish == /\ l = Len(Rec) + 1
           /\ PrintT(<<"TRACE-END", Len(Rec)>>)
           /\ l' = l + 1
-          /\ UNCHANGED <<items, pos, pass, open, skip>>
+          /\ UNCHANGED <<items, pos, pass, open, skip, corrupt, ref>>
 
 TraceNext == Step \/ Finish
 TraceSpec == TraceInit /\ [][TraceNext]_tvars
